@@ -133,6 +133,17 @@ func TestC04(t *testing.T) {
 			sig := kind
 			expiresAt := int64(0) // absolute ms at which the key expires, 0 = never / unknown
 			for j := 0; j < n; j++ {
+				if cfgc.T > 0 && j > 0 && rng.Intn(2) == 0 {
+					// unrecorded filler keys of the same partition: the key's current version ends up in an older table
+					_, part := c.OwnerOf(c.Live()[0], "c04", key)
+					for f, wrote := 0, 0; wrote < 5 && f < 400; f++ {
+						fk := fmt.Sprintf("fill-%d-%d", s, rng.Intn(100000))
+						if partitions.HKey("c04", fk)%7 == part {
+							paths[0].Put(ctx, "c04", fk, fmt.Sprintf("%070d", f), PutOpts{})
+							wrote++
+						}
+					}
+				}
 				p := paths[rng.Intn(len(paths))]
 				sum.Paths[p.Name()]++
 				var rep Reply
